@@ -37,6 +37,9 @@ pub enum Ev {
     RawSynBurst { to: u8, base: u8, n: u8 },
     /// answer the SYN that socket `from` sent to fake peer `fake` with a SYN-ACK
     RawSynAck { from: u8, fake: u8 },
+    /// a state packet from fake peer `fake` that acknowledges the SYN socket `from` sent to it but carries
+    /// another connection id (id of the SYN + `delta`): a late packet of an older connection, or a forgery
+    RawSynAckOtherId { from: u8, fake: u8, delta: u16 },
     /// drop the oldest still-open stream held by the harness
     CloseOldest,
     /// let 50 ms of virtual time pass (several round trips)
@@ -350,6 +353,13 @@ async fn run_async(script: &SockScript) -> SockLog {
                 if let Some(w) = log.iter().rev().find(|w| w.from == sock_addr(*from) && w.to == fake_addr(*fake) && w.hdr.as_ref().map(|h| h.ptype == 4).unwrap_or(false)) {
                     let h = w.hdr.as_ref().unwrap();
                     net.inject_now(fake_addr(*fake), sock_addr(*from), raw_header(2, h.conn_id, fake_isn(*fake), h.seq, 1 << 20, &[]));
+                }
+            }
+            Ev::RawSynAckOtherId { from, fake, delta } => {
+                let log = net.snapshot_log();
+                if let Some(w) = log.iter().rev().find(|w| w.from == sock_addr(*from) && w.to == fake_addr(*fake) && w.hdr.as_ref().map(|h| h.ptype == 4).unwrap_or(false)) {
+                    let h = w.hdr.as_ref().unwrap();
+                    net.inject_now(fake_addr(*fake), sock_addr(*from), raw_header(2, h.conn_id.wrapping_add(*delta), fake_isn(*fake), h.seq, 1 << 20, &[]));
                 }
             }
             Ev::CloseOldest => {
